@@ -288,9 +288,9 @@ def run(chk: Check):
                     continue
                 errs, known = oracle_grid(bounds[0][j], bounds[1][j], prec[j], g)
                 for e in errs:
-                    chk.fail("grid: " + e, {"case": {"kind": "build", "bounds": [[bounds[0][j]], [bounds[1][j]]], "precision": [prec[j]]}})
+                    chk.fail(f"grid of parameter {j}: " + e, {"case": {"kind": "build", "bounds": bounds, "precision": prec, "parameter": j}})
                 for k in known:
-                    chk.fail("grid: " + k, {"case": {"kind": "build", "bounds": [[bounds[0][j]], [bounds[1][j]]], "precision": [prec[j]]}},
+                    chk.fail(f"grid of parameter {j}: " + k, {"case": {"kind": "build", "bounds": bounds, "precision": prec, "parameter": j}},
                              signature=SIG_SMALL_PREC)
 
 
